@@ -13,6 +13,12 @@
 (*   before (an earlier completed connection of the pair, earlier messages of  *)
 (*   this connection) - "detail" says which bytes under which signature.  It   *)
 (*   is a faulty message like any other: its receiver registers no link.       *)
+(*   uniX / secX are the strings the DRIVER wrote into router X's configuration *)
+(*   (never what the parsed configuration reports back); the router was built   *)
+(*   from them the way "via" says (the configuration parser of the real program: *)
+(*   MakeTestConfig, Store.Parse, LoadConfig of a .json / .yaml file).  A name   *)
+(*   may be empty (the default universe) whether or not there is a secret, and   *)
+(*   secrets that differ in white space or case are different secrets.           *)
 (***************************************************************************)
 EXTENDS Integers, Sequences, TLC, Json
 
@@ -31,7 +37,8 @@ SetupOK ==
         /\ Uni("A") = Uni("B")                                   \* named the same universe
         /\ (Sec(x) # "" => Sec(Other(x)) = Sec(x))               \* proved knowledge of this router's secret
   /\ (Ev.op # "none" /\ ~(Ev.op = "dup" /\ Ev.idx = 3)) => ~Reg(Other(Ev.dir))   \* the receiver of a faulty message aborts
-  /\ (Ev.op = "none" /\ Uni("A") = Uni("B") /\ (Sec("A") = "" \/ Sec("B") = Sec("A")) /\ (Sec("B") = "" \/ Sec("A") = Sec("B")))
+  /\ (Ev.op = "none" /\ Uni("A") = Uni("B") /\ (Sec("A") = "" \/ Sec("B") = Sec("A")) /\ (Sec("B") = "" \/ Sec("A") = Sec("B"))
+        /\ (Uni("A") = "" => Sec("A") = "" /\ Sec("B") = ""))   \* no proof is made in the nameless universe: completion not demanded there
         => (Ev.regA /\ Ev.regB)                                  \* an undisturbed admissible set-up completes
   /\ (Ev.regA \/ Ev.regB) => Ev.peersok                           \* each end reports the other's true address
   /\ (Ev.regA /\ Ev.regB) => Ev.trafficok                         \* traffic sealed by either link end unseals at the other
